@@ -627,6 +627,11 @@ def run(ctx, out, tier):
         _detect_once(ctx, out, _dv, rule="C09.detect")
     else:
         out.inst("C09.detect", 0, 4)
+    # what a validator found is only reported if the report keeps every violation (shared with C11)
+    from rules.C11 import check_items as _check_items
+    shared.run_renamed(out, lambda o: _check_items(ctx, o), "C11", "C09")
+    from rules.shared import check_detect_cases
+    check_detect_cases(ctx, out, ["line-count"], rule="C09.detectcase")
     shared.sh_flags(ctx, out, "line-count", "C09.flags")
     from rules.C03 import check_sametext
     check_sametext(ctx, out, rule="C09.sametext")
